@@ -931,3 +931,49 @@ theorem renderDoc_map_sax (d : Nat) (xs : List Sax) : renderDoc d (xs.map ISax.s
   | cons x xs ih => cases x <;> simp [renderDoc, ih]
 
 end Xs.Backends
+
+namespace Xs.Backends
+open Py Xs.Bind
+
+/-! ### a call stream that builds a tree keeps its character data inside elements -/
+
+theorem saxTree_charsInside (m : NsMap) (xs : List Sax) :
+    ∀ (stack : List Frame) (done : Option Tree) (t : Tree),
+      saxTree m xs stack done = some t → charsInsideFrom (stack.length : Int) xs = true := by
+  induction xs with
+  | nil => intro _ _ _ _; rfl
+  | cons x r ih =>
+    intro stack done t h
+    cases x with
+    | «open» q a =>
+      simp only [saxTree] at h
+      split at h
+      · cases h
+      · have := ih _ _ _ h
+        simp only [charsInsideFrom]
+        simpa using this
+    | chars s =>
+      cases stack with
+      | nil => simp [saxTree] at h
+      | cons f st =>
+        simp only [saxTree] at h
+        simp only [charsInsideFrom, Bool.and_eq_true, bne_iff_ne, ne_eq]
+        refine ⟨by simp only [List.length_cons]; omega, ?_⟩
+        split at h
+        · have := ih _ _ _ h; simpa using this
+        · have := ih _ _ _ h; simpa using this
+    | close q =>
+      cases stack with
+      | nil => simp [saxTree] at h
+      | cons f st =>
+        simp only [saxTree] at h
+        split at h
+        · cases h
+        · simp only [charsInsideFrom]
+          cases st with
+          | nil => simpa using ih _ _ _ h
+          | cons p ps =>
+            have := ih _ _ _ h
+            simpa using this
+
+end Xs.Backends
